@@ -206,7 +206,8 @@ def build(tier, seed):
     chk.canary('canary.check.capacity', canary_check)
     chk.replayer('C01.', replay_c01)
     chk.fallback('B4.c01.boundary_grid', lambda: replay_c01(None),
-                 'one provider, one class, 15 inventories x 2 prior usages x <= 24 boundary requests (PUT, POST with 1-2 consumers, POST /reshaper installing the inventory and placing the amount in one request), <= 700 requests')
+                 'one provider, one class, 15 inventories x 2 prior usages x <= 24 boundary requests (PUT, POST with 1-2 consumers, POST /reshaper installing the inventory and placing the amount in one request), <= 700 requests',
+                 always=True)
     chk.assume('A-int', 'A-real', 'A-sql', 'A-sum', 'A-key', 'A-heap',
                'A-order', 'A-txn')
     return chk
